@@ -72,3 +72,17 @@ pub proof fn lemma_mp_bound(pats: Seq<Pattern>, reg0: Seq<Ast>, m: MultiPatternN
         assert(v_shift(mp_th(pats, n, reg0).0[i], mp_off(pats, i, reg0)).states.len() == mp_th(pats, n, reg0).0[i].states.len());
     }
 }
+
+/// what CompiledDfa::try_from_patterns returns for the patterns of a mode (registry reg0 before, regf after)
+pub open spec fn dfa_built(pats: Seq<Pattern>, reg0: Seq<Ast>, d: CompiledDfa, regf: Seq<Ast>) -> bool {
+    let reg1 = mp_th(pats, pats.len() as int, reg0).1;
+    exists|m: MultiPatternNfa, d0: CompiledDfa, reps: Seq<StateID>, dm: CompiledDfa| {
+        // the union of the Thompson automata, epsilon-eliminated, minimized (dm: what Minimizer::minimize returned for d0) ...
+        &&& #[trigger] mp_built(pats, reg0, m) && #[trigger] elim_ok(g_mp(m), d0, reps) && #[trigger] min_of(d0, dm)
+        &&& d0.terminal_ids@ == Seq::new(pats.len(), |i: int| tid_of(pats[i]))
+        &&& d.states == dm.states && d.end_states == dm.end_states && d.terminal_ids == dm.terminal_ids
+        // ... plus, per token type, the compiled lookahead of the last pattern carrying one
+        &&& la_map_ok(pats, reg1, pats.len() as int, dm.lookaheads@, d.lookaheads@)
+        &&& regf == la_reg(pats, pats.len() as int, reg1)
+    }
+}
